@@ -24,6 +24,20 @@ class MetaRec(dict, Stub):
         self.ops.append(("meta", k, v))
         dict.__setitem__(self, k, v)
 
+    # the other ways a dict takes a new entry: same log
+    def update(self, *a, **k):
+        for kk, vv in dict(*a, **k).items():
+            self[kk] = vv
+
+    def setdefault(self, k, default=None):
+        if k not in self:
+            self[k] = default
+        return dict.__getitem__(self, k)
+
+    def __ior__(self, other):
+        self.update(other)
+        return self
+
 
 class Tbl(Stub):
     """results table stub: records every mutation and every write"""
@@ -40,9 +54,13 @@ class Tbl(Stub):
             self.ops.append(("cols", (name,), [col], {"direct": True}))
         self.columns[name] = col
 
+    ADD_DEFAULTS = {"copy": True, "indexes": None, "rename_duplicate": False}
+    WRITE_DEFAULTS = {"append": False, "serialize_method": None, "checksum": False, "output_verify": "exception"}
+
     def add_columns(self, columns, names=None, *a, **k):
         columns = list(columns)
         names = list(names)
+        k = {kk: vv for kk, vv in k.items() if not (kk in self.ADD_DEFAULTS and vv == self.ADD_DEFAULTS[kk] and vv is not None or (kk in self.ADD_DEFAULTS and vv is None and self.ADD_DEFAULTS[kk] is None))}
         self.ops.append(("cols", tuple(names), columns, dict(k, extra_args=list(a)) if (a or k) else {}))
         for n, c in zip(names, columns):
             self.columns[n] = c
@@ -54,6 +72,8 @@ class Tbl(Stub):
 
             self.ops.append(("write-failed", path))
             raise UserRaise(OSError(28, "injected: no space left on device (write %d)" % self.n_writes))
+        # effective options: a keyword spelled out at astropy's default is the call without it
+        kw = {kk: vv for kk, vv in kw.items() if not (kk in self.WRITE_DEFAULTS and vv == self.WRITE_DEFAULTS[kk])}
         self.ops.append(("write", path, dict(kw), sorted(self.columns), sorted(self.meta)))
 
     # every way astropy offers to change or drop a column that is already in the table: logged, so that "never modified after being added" is checkable
